@@ -19,10 +19,10 @@ Inductive pc :=
 | PStart
 (* writer *)
 | PBeforeLock | PLocking (i : nat) | PLocked (i : nat) | PWLocked | PRootLoaded
-| PCommitIdx | PRootLocked | PRootStored | PRootUnlocked | PNotified | PTabsUnlocked | PInitClosed
+| PCommitIdx | PRootLocked | PCommitLoaded | PRootStored | PRootUnlocked | PNotified | PTabsUnlocked | PInitClosed
 | PAbortBefore | PAbortUnlocked
 (* registrar (NewTable) *)
-| PRegBefore | PRegLocked | PRegStored | PRegUnlocked
+| PRegBefore | PRegLocked | PRegLoaded | PRegStored | PRegUnlocked
 | PDone.
 
 Inductive kind :=
@@ -39,7 +39,9 @@ Record actor := mkA {
   a_locks : list nat;              (* dedup + sorted lock order (computed at PBeforeLock) *)
   a_entries : list tver;           (* private table entries (clone of the root loaded) *)
   a_notify : list N;               (* watch channels to close at notify *)
-  a_initclose : list N             (* init channels to close after the tables are unlocked *)
+  a_initclose : list N;            (* init channels to close after the tables are unlocked *)
+  a_cur : list tver                (* the root loaded INSIDE the root lock (Commit: currentRoot := db.root.Load();
+                                      registerTable: root := slices.Clone of db.root.Load()); [] until then *)
 }.
 
 Record st := mkS {
@@ -73,7 +75,10 @@ Fixpoint insert_id (x : N) (l : list N) : list N :=
   end.
 
 Definition set_pc (a : actor) (p : pc) : actor :=
-  mkA (a_id a) (a_kind a) p (a_locks a) (a_entries a) (a_notify a) (a_initclose a).
+  mkA (a_id a) (a_kind a) p (a_locks a) (a_entries a) (a_notify a) (a_initclose a) (a_cur a).
+(* the root load inside the root lock: remember the root, move to pc p *)
+Definition set_cur (a : actor) (p : pc) (cur : list tver) : actor :=
+  mkA (a_id a) (a_kind a) p (a_locks a) (a_entries a) (a_notify a) (a_initclose a) cur.
 
 (* is the next micro-step of actor i enabled? (only lock acquisitions can be disabled) *)
 Definition enabled (s : st) (i : nat) : bool :=
@@ -155,7 +160,7 @@ Definition step (s : st) (i : nat) : st :=
   | Some a =>
     match a_kind a, a_pc a with
     | KWriter tabs _ _ _ _, PStart =>
-      set_actor s i (mkA (a_id a) (a_kind a) PBeforeLock (lock_order tabs) [] [] [])
+      set_actor s i (mkA (a_id a) (a_kind a) PBeforeLock (lock_order tabs) [] [] [] [])
     | KWriter _ _ _ _ _, PBeforeLock =>
       set_actor s i (set_pc a (match a_locks a with [] => PWLocked | _ => PLocking 0 end))
     | KWriter _ _ _ _ _, PLocking k =>
@@ -168,23 +173,27 @@ Definition step (s : st) (i : nat) : st :=
       set_actor s i (set_pc a (if Nat.ltb (S k) (length (a_locks a)) then PLocking (S k) else PWLocked))
     | KWriter _ _ _ _ _, PWLocked =>
       (* txn.oldRoot = db.root.Load(); clone *)
-      set_actor s i (mkA (a_id a) (a_kind a) PRootLoaded (a_locks a) (s_root s) [] [])
+      set_actor s i (mkA (a_id a) (a_kind a) PRootLoaded (a_locks a) (s_root s) [] [] (a_cur a))
     | KWriter _ writes commit reg done, PRootLoaded =>
       if commit then
         let '(es, notify, nw) := apply_writes (a_id a) writes reg done (s_nextw s) (a_entries a) in
         let s1 := mkS (s_root s) (s_tlock s) (s_rlock s) (s_closed s) nw (s_actors s) in
-        set_actor s1 i (mkA (a_id a) (a_kind a) PCommitIdx (a_locks a) es notify [])
+        set_actor s1 i (mkA (a_id a) (a_kind a) PCommitIdx (a_locks a) es notify [] (a_cur a))
       else
         (* the writes of an aborted transaction still consume fresh channels but are never published *)
         let '(es, notify, nw) := apply_writes (a_id a) writes reg done (s_nextw s) (a_entries a) in
         let s1 := mkS (s_root s) (s_tlock s) (s_rlock s) (s_closed s) nw (s_actors s) in
-        set_actor s1 i (mkA (a_id a) (a_kind a) PAbortBefore (a_locks a) es [] [])
+        set_actor s1 i (mkA (a_id a) (a_kind a) PAbortBefore (a_locks a) es [] [] (a_cur a))
     | KWriter _ _ _ _ _, PCommitIdx =>
       set_actor (mkS (s_root s) (s_tlock s) (Some i) (s_closed s) (s_nextw s) (s_actors s)) i (set_pc a PRootLocked)
     | KWriter _ _ _ _ _, PRootLocked =>
-      let '(root, closing) := merge_root (a_locks a) (a_entries a) (s_root s) 0 in
+      (* write_txn.go Commit: currentRoot := db.root.Load(), inside db.mu (hook "commit-root-loaded") *)
+      set_actor s i (set_cur a PCommitLoaded (s_root s))
+    | KWriter _ _ _ _ _, PCommitLoaded =>
+      (* merge into the root LOADED at PRootLocked, db.root.Store *)
+      let '(root, closing) := merge_root (a_locks a) (a_entries a) (a_cur a) 0 in
       set_actor (mkS root (s_tlock s) (s_rlock s) (s_closed s) (s_nextw s) (s_actors s)) i
-                (mkA (a_id a) (a_kind a) PRootStored (a_locks a) root (a_notify a) closing)   (* a_entries := the ReadTxn Commit returns *)
+                (mkA (a_id a) (a_kind a) PRootStored (a_locks a) root (a_notify a) closing (a_cur a))   (* a_entries := the ReadTxn Commit returns *)
     | KWriter _ _ _ _ _, PRootStored =>
       set_actor (mkS (s_root s) (s_tlock s) None (s_closed s) (s_nextw s) (s_actors s)) i (set_pc a PRootUnlocked)
     | KWriter _ _ _ _ _, PRootUnlocked =>
@@ -203,9 +212,12 @@ Definition step (s : st) (i : nat) : st :=
     | KRegistrar, PRegBefore =>
       set_actor (mkS (s_root s) (s_tlock s) (Some i) (s_closed s) (s_nextw s) (s_actors s)) i (set_pc a PRegLocked)
     | KRegistrar, PRegLocked =>
-      (* db.go registerTable: clone the root, append the new table's entry, store *)
+      (* db.go registerTable: root := slices.Clone of db.root.Load(), inside db.mu (hook "register-root-loaded") *)
+      set_actor s i (set_cur a PRegLoaded (s_root s))
+    | KRegistrar, PRegLoaded =>
+      (* append the new table's entry to the root LOADED at PRegLocked, store *)
       let v := mkV [] (s_nextw s) None in
-      set_actor (mkS (s_root s ++ [v]) (s_tlock s ++ [None]) (s_rlock s) (s_closed s) (s_nextw s + 1) (s_actors s)) i
+      set_actor (mkS (a_cur a ++ [v]) (s_tlock s ++ [None]) (s_rlock s) (s_closed s) (s_nextw s + 1) (s_actors s)) i
                 (set_pc a PRegStored)
     | KRegistrar, PRegStored =>
       set_actor (mkS (s_root s) (s_tlock s) None (s_closed s) (s_nextw s) (s_actors s)) i (set_pc a PRegUnlocked)
@@ -218,4 +230,4 @@ Definition run (s : st) (sched : list nat) : st := fold_left step sched s.
 
 Definition init_st (ntab : nat) (actors : list (N * kind)) : st :=
   mkS (map (fun i => mkV [] (N.of_nat i) None) (seq 0 ntab)) (repeat None ntab) None [] (N.of_nat ntab)
-      (map (fun ik => mkA (fst ik) (snd ik) PStart [] [] [] []) actors).
+      (map (fun ik => mkA (fst ik) (snd ik) PStart [] [] [] [] []) actors).
